@@ -832,9 +832,12 @@ impl<T: Transport + 'static> SyncEngine<T> {
                                     }
 
                                     // Verify transfer if verification is enabled (skip directories)
+                                    // (only when a file was actually copied: preserved or
+                                    // skipped symlinks have no content of their own to verify)
                                     if verification_mode != ChecksumType::None
                                         && !dry_run
                                         && !source.is_dir
+                                        && transfer_result.is_some()
                                     {
                                         let source_path = &source.path;
                                         let dest_path = &task.dest_path;
@@ -974,9 +977,12 @@ impl<T: Transport + 'static> SyncEngine<T> {
                                     }
 
                                     // Verify transfer if verification is enabled (skip directories)
+                                    // (only when a file was actually copied: preserved or
+                                    // skipped symlinks have no content of their own to verify)
                                     if verification_mode != ChecksumType::None
                                         && !dry_run
                                         && !source.is_dir
+                                        && transfer_result.is_some()
                                     {
                                         let source_path = &source.path;
                                         let dest_path = &task.dest_path;
